@@ -32,7 +32,7 @@ def bounds(tier, seed):
     return dict(nsteps=[2, 3] if tier == "quick" else [1, 2, 3, 4], rows_full=2, rows_slice=3)
 
 
-VARIANTS = list(itertools.product(["xy", "ll"], [True, False], [True, False], ["discrete", "cont1", "cont2"], [False, True]))
+VARIANTS = list(itertools.product(["xy", "ll", "both"], [True, False], [True, False], ["discrete", "cont1", "cont2"], [False, True]))
 
 
 def cases(tier, seed):
@@ -40,7 +40,7 @@ def cases(tier, seed):
     out = []
     for n in b["nsteps"]:
         for vi, var in enumerate(VARIANTS):
-            if tier == "thorough" or n == 3 or (vi + seed) % 3 == 0:
+            if tier == "thorough" or (n == 3 and var[0] != "both") or (vi + seed) % 3 == 0:
                 out.append(dict(mode="tables", nsteps=n, variant=list(var), rows=[1, 2]))
             # 3-row tables: thorough = all variants; quick = a seed-chosen sixth of the variants at Nsteps=2
             if tier == "thorough" or (n == 2 and (vi + seed) % 6 == 0):
@@ -61,7 +61,7 @@ def tables(nsteps, rows, first_slot=None):
                 for pos in itertools.product([0, 1], repeat=R):
                     if R >= 2 and pos[0] == 1:
                         continue
-                    yield [dict(slot=t, mult=m, pos=p, farmid=100 + 10 * i + p, super=0.5 + i) for i, (t, m, p) in enumerate(zip(times, mults, pos))]
+                    yield [dict(slot=t, mult=m, pos=p, farmid=(100 + 10 * i + p) if p == 0 else 2 ** 53 + 1 + 2 * i, super=0.5 + i) for i, (t, m, p) in enumerate(zip(times, mults, pos))]
 
 
 def reference(table, nsteps, mode, has_mult):
@@ -94,17 +94,26 @@ def on_tick_grid(table, mode):
     return all((r["slot"] - t0) % f == 0 for r in table)
 
 
+def with_hatch(coords, header):
+    """The time-typed extra column is left out in one slice, so that a release block can be purely numeric."""
+    return not (coords == "xy" and not header)
+
+
 def render(table, coords, header, has_mult, sgn):
-    cols = (["mult"] if has_mult else []) + ["release_time"] + (["X", "Y"] if coords == "xy" else ["lon", "lat"]) + ["Z", "farmid", "super", "hatch"]
+    cols = (["mult"] if has_mult else []) + ["release_time"] + dict(xy=["X", "Y"], ll=["lon", "lat"], both=["X", "Y", "lon", "lat"])[coords] + ["Z", "farmid", "super"] + (["hatch"] if with_hatch(coords, header) else [])
     lines = []
     if header:
         lines.append(" ".join(cols))
     for r in table:
         x, y, z = POS[r["pos"]]
+        lo, la = x, y
         if coords == "ll":
             x, y = 5.0 + 0.01 * x, 60.0 + 0.005 * y
-        vals = dict(mult=r["mult"], release_time=world.iso(S0 + sgn * r["slot"] * DT), X=x, Y=y, lon=x, lat=y, Z=z,
-                    farmid=r["farmid"], super=r["super"], hatch=world.iso(S0 - 86400 - 3600 * r["farmid"]))
+            lo, la = x, y
+        if coords == "both":  # both given: the grid position is used, the lon/lat columns are ordinary extra values (deliberately inconsistent)
+            lo, la = 7.25 + r["pos"], 61.5 - r["pos"]
+        vals = dict(mult=r["mult"], release_time=world.iso(S0 + sgn * r["slot"] * DT), X=x, Y=y, lon=lo, lat=la, Z=z,
+                    farmid=r["farmid"], super=r["super"], hatch=world.iso(S0 - 86400 - 3600 * (r["farmid"] % 1000)))
         lines.append(" ".join(str(vals[c]) for c in cols))
     return "\n".join(lines) + "\n", cols
 
@@ -129,8 +138,11 @@ def run_table(table, nsteps, variant):
         spec.loader.exec_module(_AGRID)
     grid = _AGRID.Grid()
     # defaults exist for variables that the release rows also provide: the row's value must win
-    st = State(instance_variables=dict(farmid=int, super=float), particle_variables=dict(release_time="time", hatch="time"),
-               default_values=dict(super=-1.0, Z=-7.0, farmid=-1))
+    ivars = dict(farmid=int, super=float)
+    if coords == "both":
+        ivars.update(lon=float, lat=float)
+    pvars_ = dict(release_time="time", hatch="time") if with_hatch(coords, header) else dict(weightless=float)
+    st = State(instance_variables=ivars, particle_variables=pvars_, default_values=dict(super=-1.0, Z=-7.0, farmid=-1, **({} if with_hatch(coords, header) else dict(weightless=0.0))))
     tk = TimeKeeper(start=world.iso(S0), stop=world.iso(S0 + sgn * nsteps * DT), dt=DT, time_reversal=rev)
     sched = reference(table, nsteps, mode, has_mult)
     total = sum(len(v) for v in sched.values())
@@ -154,20 +166,25 @@ def run_table(table, nsteps, variant):
             return ("exception:update", f"step {n}: {e!r}"), "exc"
         newmask = st.pid >= before
         got = list(zip(st.X[newmask].tolist(), st.Y[newmask].tolist(), st.Z[newmask].tolist(), st.farmid[newmask].tolist(), st.super[newmask].tolist()))
-        hatch = [np.datetime64(h, "s") for h in st.variables["hatch"][before:]]
+        hatch = [np.datetime64(h, "s") for h in st.variables["hatch"][before:]] if with_hatch(coords, header) else None
         exp = []
         for i in sched[n]:
             x, y, z = POS[table[i]["pos"]]
             exp.append((x, y, z, table[i]["farmid"], table[i]["super"]))
-        exph = [np.datetime64(world.iso(S0 - 86400 - 3600 * table[i]["farmid"]), "s") for i in sched[n]]
+        exph = [np.datetime64(world.iso(S0 - 86400 - 3600 * (table[i]["farmid"] % 1000)), "s") for i in sched[n]]
         if len(got) != len(exp):
             return ("count", f"step {n}: {len(got)} new particles expected {len(exp)} (rows {sched[n]})"), "bad"
         close = all(abs(g[0] - e[0]) < 1e-9 and abs(g[1] - e[1]) < 1e-9 and g[2:] == e[2:] for g, e in zip(got, exp))
         if not close:
             same_set = sorted(got) == sorted(exp) or all(any(abs(g[0] - e[0]) < 1e-9 and abs(g[1] - e[1]) < 1e-9 and g[2:] == e[2:] for e in exp) for g in got)
             return ("order" if same_set else "values", f"step {n}: new particles {got} expected {exp}"), "bad"
-        if hatch != exph:
+        if hatch is not None and hatch != exph:
             return ("values:time-column", f"step {n}: hatch {hatch} expected {exph}"), "bad"
+        if coords == "both":
+            gl = list(zip(st["lon"][newmask].tolist(), st["lat"][newmask].tolist()))
+            el = [(7.25 + table[i]["pos"], 61.5 - table[i]["pos"]) for i in sched[n]]
+            if gl != el:
+                return ("values:lonlat-columns", f"step {n}: lon/lat columns carried as {gl} expected {el} (X, Y given as well)"), "bad"
         if st.pid.tolist() != list(range(int(st.npid))):
             return ("pids", f"step {n}: pids {st.pid.tolist()}"), "bad"
     return None, f"ok{total}"
